@@ -125,7 +125,18 @@ def _one_run(binary, runtime, profile, sched, iters, seed, dist, stats):
         p = subprocess.run(cmd, stdout=out, stderr=subprocess.PIPE, text=True,
                            timeout=60 + iters * 3)
     run["exit"] = p.returncode
-    if p.returncode not in (0, 1):
+    crashed = None
+    if p.returncode == 101 and ("panicked" in p.stderr or "shuttle::replay" in p.stderr):
+        # the process died with a Rust panic that the harness did not expect: an assertion of salsa
+        # itself, a specification assertion of the harness, or shuttle reporting a failed
+        # execution (deadlock / panic in a task).  On a schedule-controlled run that IS a concrete
+        # failing input (the command line reproduces it); it is reported as a violation, not as a
+        # broken check.
+        msg = [l for l in p.stderr.splitlines() if "panicked at" in l or "assertion" in l or "deadlock" in l.lower()]
+        crashed = {"iter": None, "seed": seed,
+                   "text": ["the harness process died with a panic (exit 101): " + " | ".join(msg[:4])[:600],
+                            p.stderr[-1200:]]}
+    elif p.returncode not in (0, 1):
         run["error"] = f"harness exit {p.returncode}: {p.stderr[-600:]}"
     with open(trace_file) as f:
         for line in f:
@@ -150,6 +161,9 @@ def _one_run(binary, runtime, profile, sched, iters, seed, dist, stats):
                 run["baton_steals"] = j.get("baton_steals", 0)
             elif kind in ("stall", "error"):
                 run["error"] = j.get("error")
+    if crashed is not None:
+        run["harness_violations"] += 1
+        run["violations"].append(crashed)
     if not os.path.exists(REPLAY_BIN):
         run["error"] = run["error"] or f"missing replayer {REPLAY_BIN} (run build())"
         return run
